@@ -288,7 +288,7 @@ def assigned_names(fnode):
                     tgts = [i.optional_vars for i in ch.items if i.optional_vars]
                 for t in tgts:
                     for s in ast.walk(t):
-                        if isinstance(s, ast.Name):
+                        if isinstance(s, ast.Name) and isinstance(s.ctx, ast.Store):
                             out.setdefault(s.id, []).append(ch)
             rec(ch)
     rec(fnode)
